@@ -646,6 +646,20 @@ class Resolver:
         # projection distributes over the alternatives of a multiply assigned local (one Try::branch per return site
         # of an inlined helper)
         if t[0] == "phi" and variant is not None:
+            if variant in ("Some", "Ok") and name == "0":
+                return self._ok(t)
+            alts = []
+            for a in t[1]:
+                if a[0] == "agg" and a[1][0] == "adt" and a[1][2] != variant:
+                    continue                    # a literal of another variant: this alternative cannot be downcast
+                x = self._project(a, name, idx, variant)
+                if x not in alts:
+                    alts.append(x)
+            if not alts:
+                return ("field", t, "%s.%s" % (variant, name))
+            return alts[0] if len(alts) == 1 else ("phi", tuple(alts))
+        if t[0] == "phi" and variant is None and all(a[0] == "agg" and a[1][0] in ("tuple",) for a in t[1]):
+            # field k of a value that is one of several tuple literals
             alts = []
             for a in t[1]:
                 x = self._project(a, name, idx, variant)
@@ -1162,8 +1176,79 @@ def branch_of_call(fn, bi):
     return None
 
 
+def option_tests(fn, R, pred):
+    """tests whether an Option place is Some, however spelled: `x.is_some()` / `x.is_none()` feeding a switch, or a
+    `match x { Some(..) .. None .. }` / `if let Some(..) = x` switch on its discriminant.  pred(tree) selects the
+    place.  returns a list of (switch block, successor when Some, successor when None)"""
+    out = []
+    for bi, t in fn.calls(lambda c, t: c.rsplit("::", 1)[-1] in ("is_some", "is_none") and "Option" in c):
+        if t["args"] and pred(strip(R.operand(t["args"][0]))):
+            for sw, tr, fa in bool_switches(fn, bi):
+                out.append((sw, tr, fa) if callee_of(t).endswith("is_some") else (sw, fa, tr))
+    for bi in fn.cfg():
+        t = fn.blocks[bi]["term"]
+        if t["k"] != "switch":
+            continue
+        dl = op_place(t["discr"])
+        d = strip(R.place(dl)) if dl else None
+        if d and d[0] == "discr" and pred(strip(d[1])):
+            e = switch_edges(fn, bi)
+            some, none = e.get("1", e["otherwise"]), e.get("0", e["otherwise"])
+            if some != none:
+                out.append((bi, some, none))
+    return out
+
+
+def bool_switches(fn, bi):
+    """every switch whose discriminant is (a copy / negation of) the bool produced by call block bi:
+    list of (switch block, true succ, false succ)"""
+    t = fn.blocks[bi]["term"]
+    src = t["dest"]["local"]
+    if t["dest"]["proj"]:
+        return []
+    out = []
+    for sb in fn.cfg():
+        tt = fn.blocks[sb]["term"]
+        if tt["k"] != "switch":
+            continue
+        p = op_place(tt["discr"])
+        if p is None or p["proj"]:
+            continue
+        n, neg, ok = p["local"], False, False
+        for _ in range(8):
+            if n == src:
+                ok = True
+                break
+            ds = fn.whole_defs(n)
+            if len(ds) != 1 or len(fn.defs().get(n, [])) != 1 or ds[0][0] != "stmt":
+                break
+            rv = ds[0][1]
+            if rv["k"] == "use" and op_place(rv["op"]) is not None and not op_place(rv["op"])["proj"]:
+                n = op_place(rv["op"])["local"]
+            elif rv["k"] == "unop" and rv["op"] == "Not" and op_place(rv["a"]) is not None and not op_place(rv["a"])["proj"]:
+                n = op_place(rv["a"])["local"]
+                neg = not neg
+            else:
+                break
+        if ok:
+            e = switch_edges(fn, sb)
+            tr, fa = e.get("1", e["otherwise"]), e.get("0")
+            if neg:
+                tr, fa = fa, tr
+            out.append((sb, tr, fa))
+    return out
+
+
 def bool_edges(fn, bi):
     """call block bi producing a bool that is switched on: returns (switch block, true succ, false succ)."""
+    r = _bool_edges_local(fn, bi)
+    if r is not None:
+        return r
+    alls = bool_switches(fn, bi)
+    return alls[0] if len(alls) == 1 else None
+
+
+def _bool_edges_local(fn, bi):
     t = fn.blocks[bi]["term"]
     dest = t["dest"]["local"]
     neg = False
